@@ -92,6 +92,26 @@ def nf(node, pol=True):
         return ('and', parts)
     if isinstance(node, ast.NamedExpr):
         return nf(node.value, pol)
+    if isinstance(node, ast.Call) and isinstance(node.func, ast.Name) and \
+            node.func.id == 'bool' and len(node.args) == 1 and \
+            not node.keywords:
+        return nf(node.args[0], pol)       # bool(x) is true iff x is
+    if isinstance(node, ast.Compare) and len(node.ops) == 1 and isinstance(
+            node.left, ast.IfExp) and isinstance(
+            node.ops[0], (ast.Is, ast.IsNot)) and isinstance(
+            node.comparators[0], ast.Constant) and \
+            node.comparators[0].value is None:
+        # (b if t else e) is [not] None: distribute over the arms; an arm
+        # that is the literal None decides the comparison
+        ie, op = node.left, node.ops[0]
+
+        def arm(x):
+            if isinstance(x, ast.Constant) and x.value is None:
+                return ast.Constant(value=isinstance(op, ast.Is))
+            return ast.Compare(left=x, ops=[op], comparators=[
+                ast.Constant(value=None)])
+        return nf(ast.IfExp(test=ie.test, body=arm(ie.body),
+                            orelse=arm(ie.orelse)), pol)
     if isinstance(node, ast.IfExp):
         # (b if t else e)  ==  (t and b) or (not t and e), with the
         # constant arms folded: `x if t else False` == `t and x`
